@@ -375,9 +375,16 @@ def r4_actions(ctx, F):
     okh = False
     for sw in b.switches:
         if sw.kind == 'variant' and noref(sw.on).fields()[-1:] == ('.init_network',):
-            cmp_ = [c for c in b.calls_to('PartialEq::eq') if c.targs and 'Option<' in c.targs[0]]
-            if cmp_ and cmp_[0].bb in b.reach([e[1] for e in sw.edges_for('Ordered')]):
-                fe = b.branch(cmp_[0], False)
+            from common import comparisons
+            ordered_blocks = b.reach([e[1] for e in sw.edges_for('Ordered')])
+            fe = []
+            cmp_ = []
+            for (x_, y_, rel_, te_, fe_, bb_) in comparisons(b):
+                cc = b.call_at(bb_)
+                if cc is not None and cc.targs and 'Option<' in cc.targs[0] and bb_ in ordered_blocks and rel_ in ('eq', 'ne'):
+                    cmp_.append(cc)
+                    fe += fe_ if rel_ == 'eq' else te_       # edges on which prev_channel != current channel
+            if cmp_:
                 oth = sw.edges_not('Ordered')
                 if fe and all(b.edges_dominate(fe + oth, i) for (i, st) in sites['Deliver']):
                     okh = True
